@@ -97,7 +97,8 @@ def text_of(tl, rng):
         glue = rng.random() < 0.35
         if prev is not None:
             a = "(" if prev == "lp" else ")" if prev == "rp" else prev[1]
-            if not glue or (a[-1] in "+-&|<>=!*~?:" and w[0] in "+-&|<>=!*~") or (a[-1].isalnum() and w[0].isalnum()) or a[-1] == "_" or w[0] == "_":
+            if not glue or (a[-1] in "+-&|<>=!*~?:" and w[0] in "+-&|<>=!*~") or (a[-1].isalnum() and w[0].isalnum()) or a[-1] == "_" or w[0] == "_" \
+                    or a == ":" or w == ":":     # `R31:1` glued would be the spelling of an explicit register pair
                 s += " "
         s += w
         prev = t
@@ -230,6 +231,12 @@ def run(tier: str, replay=None) -> int:
         for o in BIN:
             cases.append([("atom", "a"), ("op", pf), ("op", o), ("atom", "b")])
             cases.append([("atom", "c"), ("op", o), ("atom", "a"), ("op", pf), ("op", o), ("atom", "b")])
+    # a cast between two operators that are unary operators as well: `a - (int32_t) - b` is a - ((int32_t)(-b)), the type
+    # name is not an identifier in parentheses
+    for ty in TYPES:
+        for o in ("+", "-", "*", "&", "|", "<<", "==", "&&"):
+            for o2 in ("-", "~", "!"):
+                cases.append([("atom", "a"), ("op", o), "lp", ("ty", ty), "rp", ("op", o2), ("atom", "b")])
     n_directed = len(cases)
     for _ in range(n):
         tl = []
